@@ -27,6 +27,9 @@ import (
 	"sort"
 	"strconv"
 	"strings"
+	"sync"
+	"sync/atomic"
+	"time"
 )
 
 // ---------------------------------------------------------------- PRNG (splitmix64)
@@ -118,6 +121,8 @@ var (
 	distinctNontriv int
 	samples         []string
 	curCaseLines    []string
+	outMu           sync.Mutex
+	hungLine        string
 )
 
 // Finding reports that the implementation violated property prop on the current case.
@@ -231,6 +236,25 @@ func Main(e Engine) {
 		w := bufio.NewWriterSize(os.Stdout, 1<<20)
 		nops := 0
 		curCase = -1
+		// per-operation watchdog: an operation that does not return (the real code spins or deadlocks outside the
+		// adapter's own guards) ends the run with exit code 67 after everything answered so far has been flushed, so
+		// that the check can name the case being executed.
+		opLimit := 180 * time.Second
+		if v, err := strconv.Atoi(os.Getenv("VERIF_OP_TIMEOUT")); err == nil && v > 0 {
+			opLimit = time.Duration(v) * time.Second
+		}
+		var opStart atomic.Int64
+		go func() {
+			for {
+				time.Sleep(time.Second)
+				if t0 := opStart.Load(); t0 != 0 && time.Since(time.Unix(0, t0)) > opLimit {
+					outMu.Lock()
+					w.Flush()
+					fmt.Fprintf(os.Stderr, "verif: operation hung for more than %v in case %d op %d: %s\n", opLimit, curCase, curOp, hungLine)
+					os.Exit(67)
+				}
+			}
+		}()
 		for in.Scan() {
 			line := strings.TrimSpace(in.Text())
 			if line == "" || line[0] == '#' {
@@ -254,9 +278,14 @@ func Main(e Engine) {
 			if len(curCaseLines) < 40 {
 				curCaseLines = append(curCaseLines, line)
 			}
+			hungLine = line
+			opStart.Store(time.Now().UnixNano())
 			reply, _ := Protect(func() string { return e.Exec(args) })
+			opStart.Store(0)
+			outMu.Lock()
 			w.WriteString(reply)
 			w.WriteByte('\n')
+			outMu.Unlock()
 		}
 		endCase()
 		w.Flush()
